@@ -309,6 +309,79 @@ pub fn get_candidates(
     get_n_best_candidates(context, &graph, frequency, n)
 }
 
+/// Verification hooks (only compiled with `--cfg chokan_verif`): the lattice the engine builds for an
+/// input with the engine's own node and edge scores, and the parts of a returned candidate.
+#[cfg(chokan_verif)]
+pub mod verif {
+    use super::*;
+    pub use crate::graph::VerifNode;
+
+    /// One edge `prev -> node` of the lattice with the engine's edge score (-1 = not connectable)
+    /// and the score of the node the edge leads to (`node`'s own score, 0 for eos).
+    #[derive(Debug, Clone)]
+    pub struct VerifEdge {
+        pub prev: VerifNode,
+        pub node: VerifNode,
+        pub edge_score: i32,
+        pub node_score: i32,
+    }
+
+    #[derive(Debug, Clone)]
+    pub struct VerifLattice {
+        /// nodes ending at each input position, after the forward pass
+        pub positions: Vec<Vec<VerifNode>>,
+        /// every `previous -> node` pair, including the edges into eos
+        pub edges: Vec<VerifEdge>,
+    }
+
+    fn raw(s: Score) -> i32 {
+        Option::<i32>::from(s).unwrap_or(-1)
+    }
+
+    pub fn lattice(
+        input: &str,
+        dic: &GraphDictionary,
+        context: &context::Context,
+        frequency: &frequency::ConversionFrequency,
+    ) -> VerifLattice {
+        let mut graph = graph::Graph::from_input(input, dic, context);
+        forward_dp(input, &mut graph, context, frequency);
+        let positions = graph.verif_positions();
+        let mut edges = Vec::new();
+        let mut all: Vec<graph::Node> = positions.iter().flatten().cloned().collect();
+        all.push(graph::Node::Eos);
+        for node in all.iter() {
+            for prev in graph.previsous_nodes(node) {
+                edges.push(VerifEdge {
+                    prev: prev.verif_view(),
+                    node: node.verif_view(),
+                    edge_score: raw(score::get_edge_score(context, &prev, node)),
+                    node_score: raw(score::get_node_score(context, node, frequency)),
+                });
+            }
+        }
+        VerifLattice {
+            positions: positions
+                .iter()
+                .map(|v| v.iter().map(|n| n.verif_view()).collect())
+                .collect(),
+            edges,
+        }
+    }
+
+    /// The nodes of a candidate from its head (bos for search results) to eos, with its accumulated
+    /// score (-1 = not connectable) and heap priority.
+    pub fn candidate_view(c: &Candidate) -> (Vec<VerifNode>, i32, i32) {
+        let mut nodes = Vec::new();
+        let mut cur = Some(c);
+        while let Some(x) = cur {
+            nodes.push(x.current_node.verif_view());
+            cur = x.next.as_deref();
+        }
+        (nodes, raw(c.score), c.priority)
+    }
+}
+
 // re-export tankan
 pub use tankan::TankanDictionary;
 
